@@ -147,6 +147,22 @@ Theorem C14_paths_agree : forall n d op alpha lo hi V,
 Proof. exact paths_agree. Qed.
 Print Assumptions C14_paths_agree.
 
+(* ---- the implementation inherits monotonicity in alpha and the range [smallest value, expectation] from the
+   specification, up to the resolutions of the two evaluations *)
+Theorem C14_impl_mono : forall l a1 a2 V,
+  is_dist l -> 0 < a1 -> a1 <= a2 -> a2 <= 1 -> isclose a1 1 = false -> isclose a2 1 = false -> abs_values_le V l ->
+  exists r1 r2, get_expectation l a1 = Ok r1 /\ get_expectation l a2 = Ok r2 /\
+                r1 <= r2 + (rtol + atol / a1) * V + (rtol + atol / a2) * V.
+Proof. exact impl_mono. Qed.
+Print Assumptions C14_impl_mono.
+
+Theorem C14_impl_range : forall l alpha lo hi V,
+  is_dist l -> 0 < alpha -> alpha <= 1 -> isclose alpha 1 = false -> values_within lo hi l -> abs_values_le V l ->
+  exists r, get_expectation l alpha = Ok r /\
+            lo - (rtol + atol / alpha) * V <= r /\ r <= expectation l + (rtol + atol / alpha) * V.
+Proof. exact impl_range. Qed.
+Print Assumptions C14_impl_range.
+
 (* ---- the hypotheses are satisfiable *)
 Example C14_example_is_dist : is_dist [(1 # 4, 3); (1 # 4, 1); (1 # 2, 2)].
 Proof. exact example_dist_is_dist. Qed.
